@@ -6,7 +6,7 @@
 //!   obs : slice hex after `new` and after every op; a final `ser=<to_aml_bytes hex>,<len()>`; `panic:<slice hex after the refused op>`; `panic` if `new` panics
 use crate::rng::Rng;
 use crate::util::*;
-use acpi_tables::sdt::Sdt;
+use acpi_tables::sdt::{GenericAddress, Sdt};
 use acpi_tables::AmlSink;
 
 fn arr<const N: usize>(b: &[u8]) -> [u8; N] {
@@ -37,6 +37,16 @@ pub fn run_sdt(toks: &[&str]) -> String {
                 "a32" => s.append(n::<u32>(v)),
                 "a64" => s.append(n::<u64>(v)),
                 "as" => s.append_slice(&unhex(v)),
+                // the generic `append<T>` / `write<T>` with types other than the four integers: byte arrays
+                // of odd widths, a 128-bit integer, the 12-byte `GenericAddress`
+                "at" => { let b = unhex(v); match b.len() {
+                    3 => s.append::<[u8; 3]>(arr::<3>(&b)), 5 => s.append::<[u8; 5]>(arr::<5>(&b)),
+                    12 => s.append(GenericAddress { address_space_id: b[0], register_bit_width: b[1], register_bit_offset: b[2], access_size: b[3], address: u64::from_le_bytes(arr::<8>(&b[4..])) }),
+                    16 => s.append(u128::from_le_bytes(arr::<16>(&b))), _ => panic!("at width") } }
+                "wt" => { let (o, x) = two(); let b = unhex(x); match b.len() {
+                    3 => s.write::<[u8; 3]>(o, arr::<3>(&b)), 5 => s.write::<[u8; 5]>(o, arr::<5>(&b)),
+                    12 => s.write(o, GenericAddress { address_space_id: b[0], register_bit_width: b[1], register_bit_offset: b[2], access_size: b[3], address: u64::from_le_bytes(arr::<8>(&b[4..])) }),
+                    16 => s.write(o, u128::from_le_bytes(arr::<16>(&b))), _ => panic!("wt width") } }
                 "w8" => { let (o, x) = two(); s.write_u8(o, n(x)) }
                 "w16" => { let (o, x) = two(); s.write_u16(o, n(x)) }
                 "w32" => { let (o, x) = two(); s.write_u32(o, n(x)) }
@@ -73,7 +83,9 @@ fn op(r: &mut Rng, cur: &mut u64, offs: &[u64]) -> String {
     let off = |r: &mut Rng, cur: u64| -> u64 {
         match r.below(4) { 0 => *r.pick(offs), 1 => cur.saturating_sub(r.below(10)), 2 => cur + r.below(3), _ => r.below(cur + 1) }
     };
-    match r.below(16) {
+    match r.below(18) {
+        16 => { let k = *r.pick(&[3u64, 5, 12, 16]); *cur += k; format!("at={}", hex(&r.bytes(k as usize))) }
+        17 => { let k = *r.pick(&[3u64, 5, 12, 16]); format!("wt={}.{}", off(r, *cur), hex(&r.bytes(k as usize))) }
         0 => { *cur += 1; format!("a8={}", r.scalar(8)) }
         1 => { *cur += 2; format!("a16={}", r.scalar(16)) }
         2 => { *cur += 4; format!("a32={}", r.scalar(32)) }
@@ -101,7 +113,8 @@ pub fn gen_sdt(r: &mut Rng, tier: &str, emit: &mut dyn FnMut(String)) {
     // bounded-exhaustive: all op sequences of length ≤ 2 (3 in the thorough tier) over a 40-byte table,
     // with offsets {0,3,4,8,9,10,35,last,last+1}
     let offs = [0u64, 3, 4, 8, 9, 10, 35, 39, 40];
-    let mut alphabet: Vec<String> = vec!["a8=171".into(), "a32=305419896".into(), "as=-".into(), "as=0102030405".into(), "kb=9".into(), "kq=1311768467463790320".into(), "ck".into()];
+    let mut alphabet: Vec<String> = vec!["a8=171".into(), "a32=305419896".into(), "as=-".into(), "as=0102030405".into(), "kb=9".into(), "kq=1311768467463790320".into(), "ck".into(),
+        "at=a1b2c3".into(), "at=0102030405060708090a0b0c".into(), "wt=4.0102030405060708090a0b0c0d0e0f10".into(), "wt=37.a1b2c3".into()];
     for o in offs {
         alphabet.push(format!("w8={}.{}", o, 0xA5));
         alphabet.push(format!("w32={}.{}", o, 0xDEADBEEFu32));
